@@ -772,6 +772,18 @@ pub fn run(ctx: &mut Ctx, replay_path: Option<&str>) {
             let calls: Vec<IssueArgs> = holders.iter().enumerate().map(|(k, h)| IssueArgs { claims: claims.clone(), strategy: Strategy::All, holder: *h, decoy: si % 2 == 0, fmt: if (si + k / 4) % 2 == 0 { Fmt::Compact } else { Fmt::Json }, key: KeyId::Hmac1, alg: Some("HS256".into()), queue: None }).collect();
             let mut shared = sd_jwt_rs::SDJWTIssuer::new(KeyId::Hmac1.encoding(), Some("HS256".into()));
             for (k, a) in calls.iter().enumerate() {
+                // between the issuances, calls that are refused at different stages (a reserved name, a path without "$.", claims
+                // that are no object): whatever they leave behind is not used again
+                if k % 2 == 1 {
+                    let mut bad = a.clone();
+                    match (k / 2 + si) % 3 {
+                        0 => bad.claims = json!({"iss": "x", "exp": 1, "o": [{"_sd": 1}]}),
+                        1 => bad.strategy = Strategy::Custom(vec!["no-dollar".into()]),
+                        _ => bad.claims = json!([{"a": 1}, 2]),
+                    }
+                    let _ = issue_on(&mut shared, &bad);
+                    ctx.impl_calls += 1;
+                }
                 let res = issue_on(&mut shared, a);
                 ctx.impl_calls += 1;
                 ctx.evaluations += 1;
